@@ -32,7 +32,14 @@ typedef std::vector<std::pair<int, std::string>> Props;  // (attribute, value as
 struct MPoly { int layer = 0, type = 0; Props props; Poly pts; bool big = false; };
 struct MPath { int layer = 0, type = 0; Props props; Poly pts; int64_t width = 0; bool scale_width = true; int end = 0; int64_t ext0 = 0, ext1 = 0; bool collinear_ok = false; };
 struct MLabel { int layer = 0, type = 0; Props props; std::string text; P pos{0, 0}; int anchor = 0; double rot = 0, mag = 1; bool refl = false; };
-struct MRef { std::string target; Props props; double rot = 0, mag = 1; bool refl = false; int64_t qx = 0, qy = 0; };  // position in 1/1000 grid steps
+struct MRef {
+    std::string target; Props props; double rot = 0, mag = 1; bool refl = false;
+    int64_t qx = 0, qy = 0;  // position in 1/1000 grid steps
+    // (source model only) a coordinate this position derives from is exactly half a grid step: whether
+    // origin, origin + offset and origin + n*v round up or down is then decided by floating-point noise of
+    // the evaluation order, so the neighbouring grid value is admissible too
+    bool tie = false;
+};
 struct MRefGroup { std::vector<MRef> a, s; bool alt = false; };  // one source reference: AREF form / one-SREF-per-offset form
 struct MCell {
     std::string name;
@@ -54,6 +61,7 @@ struct Ctx {
     int64_t exact_ties = 0;      // coordinates that are exactly half a grid step in double evaluation
     int64_t off_grid = 0;        // loaded coordinates further than 1e-3 grid steps from the grid
     int64_t out_of_range = 0;    // expected coordinates that do not fit 32 bits (outside the quantifier)
+    bool saw_tie = false;        // set by src_grid whenever a coordinate is within 1e-9 of half a grid step
     std::vector<std::string> problems;  // inputs the model does not cover (corpus bug, not a violation)
 };
 
@@ -73,6 +81,7 @@ inline int64_t src_grid(double c, Ctx& ctx) {
     double v = c * ctx.S;
     int64_t k = round_half_away(v);
     if (fabs(v) - floor(fabs(v)) == 0.5) ctx.exact_ties++;
+    if (fabs((fabs(v) - floor(fabs(v))) - 0.5) < 1e-9) ctx.saw_tie = true;
     long double vl = (long double)c * ((long double)ctx.unit / (long double)ctx.precision);
     if (round_half_away_l(vl) != k) ctx.tie_sensitive++;
     if (k > 2147483647LL || k < -2147483648LL) ctx.out_of_range++;
@@ -224,20 +233,24 @@ void add_cell(const Cell& cell, MLib& lib, Ctx& ctx, GridFn grid, bool source) {
             // form S: one placement per offset, each rounded on its own
             for (auto& o : dump::own_offsets(rep)) {
                 MRef m = base;
+                ctx.saw_tie = false;
                 m.qx = 1000 * grid(r.origin.x + o.x, ctx);
                 m.qy = 1000 * grid(r.origin.y + o.y, ctx);
+                m.tie = ctx.saw_tie;
                 g.s.push_back(m);
             }
             // form A (lattices only): GDSII stores the origin and the two far corners origin + n*v, each rounded
             if (rep.type == RepetitionType::Rectangular || rep.type == RepetitionType::Regular) {
                 Vec2 v1 = rep.type == RepetitionType::Rectangular ? Vec2{rep.spacing.x, 0} : rep.v1;
                 Vec2 v2 = rep.type == RepetitionType::Rectangular ? Vec2{0, rep.spacing.y} : rep.v2;
+                ctx.saw_tie = false;
                 long double ox = grid(r.origin.x, ctx), oy = grid(r.origin.y, ctx);
                 long double ax = grid(r.origin.x + rep.columns * v1.x, ctx), ay = grid(r.origin.y + rep.columns * v1.y, ctx);
                 long double bx = grid(r.origin.x + rep.rows * v2.x, ctx), by = grid(r.origin.y + rep.rows * v2.y, ctx);
                 for (uint64_t a = 0; a < rep.columns; a++)
                     for (uint64_t b = 0; b < rep.rows; b++) {
                         MRef m = base;
+                        m.tie = ctx.saw_tie;
                         m.qx = (int64_t)llroundl(1000 * (ox + a * (ax - ox) / rep.columns + b * (bx - ox) / rep.rows));
                         m.qy = (int64_t)llroundl(1000 * (oy + a * (ay - oy) / rep.columns + b * (by - oy) / rep.rows));
                         g.a.push_back(m);
@@ -326,10 +339,10 @@ inline Poly canon_cycle(const Poly& p) {
     size_t n = p.size();
     if (n == 0) return p;
     Poly best;
+    P mn = p[0];
+    for (size_t k = 1; k < n; k++) if (p[k] < mn) mn = p[k];
     for (size_t s = 0; s < n; s++) {
-        bool is_min = true;
-        for (size_t k = 0; k < n && is_min; k++) if (p[k] < p[s]) is_min = false;
-        if (!is_min) continue;
+        if (p[s] != mn) continue;
         Poly r(n);
         for (size_t k = 0; k < n; k++) r[k] = p[(s + k) % n];
         if (best.empty() || std::lexicographical_compare(r.begin(), r.end(), best.begin(), best.end())) best = r;
@@ -413,7 +426,8 @@ inline std::vector<std::string> attrs(const MRef& e, const MRef& g) {
     std::vector<std::string> d;
     if (e.target != g.target) d.push_back("target");
     if (e.props != g.props) d.push_back("properties");
-    if (llabs(e.qx - g.qx) > 1 || llabs(e.qy - g.qy) > 1) d.push_back("position");
+    const int64_t tol = (e.tie || g.tie) ? 1001 : 1;
+    if (llabs(e.qx - g.qx) > tol || llabs(e.qy - g.qy) > tol) d.push_back("position");
     if (!angle_close(e.rot, g.rot)) d.push_back("rotation");
     if (!real_close(e.mag, g.mag)) d.push_back("magnification");
     if (e.refl != g.refl) d.push_back("reflection");
@@ -478,26 +492,84 @@ inline int classify(const Poly& p, P q) {
     }
     return w != 0 ? 1 : 0;
 }
-inline int classify(const std::vector<Poly>& g, P q) {
-    int r = 0;
-    for (auto& p : g) {
-        int c = classify(p, q);
-        if (c == 2) return 2;
-        if (c == 1) r = 1;
-    }
-    return r;
-}
-inline bool near_boundary(const std::vector<Poly>& g, P q, int64_t guard) {
-    for (auto& p : g) {
-        size_t n = p.size();
+// A polygon with a bucket index over the longer axis of its bounding box: classify()/near() only visit the
+// edges whose extent along that axis contains the query (the same exact per-edge predicates as above).
+struct IPoly {
+    Poly p;
+    bool swapped = false;
+    int64_t lx = 0, ly = 0, hx = 0, hy = 0, bh = 1;
+    std::vector<std::vector<uint32_t>> buckets;
+    explicit IPoly(const Poly& src) : p(src) {
+        lx = ly = INT64_MAX; hx = hy = INT64_MIN;
+        for (auto& v : p) { lx = std::min(lx, v.x); hx = std::max(hx, v.x); ly = std::min(ly, v.y); hy = std::max(hy, v.y); }
+        if (p.empty()) { lx = ly = 0; hx = hy = -1; return; }
+        if (hx - lx > hy - ly) { swapped = true; for (auto& v : p) std::swap(v.x, v.y); std::swap(lx, ly); std::swap(hx, hy); }
+        size_t n = p.size(), nb = n < 64 ? 1 : std::min<size_t>(n / 4, 4096);
+        bh = std::max<int64_t>(1, (hy - ly + (int64_t)nb) / (int64_t)nb);
+        buckets.resize(nb);
         for (size_t i = 0; i < n; i++) {
             P a = p[i], b = p[i + 1 == n ? 0 : i + 1];
-            if (q.x < std::min(a.x, b.x) - guard || q.x > std::max(a.x, b.x) + guard || q.y < std::min(a.y, b.y) - guard || q.y > std::max(a.y, b.y) + guard) continue;
-            if (eg::dist_seg(a, b, q) <= (long double)guard) return true;
+            size_t b0 = (size_t)((std::min(a.y, b.y) - ly) / bh), b1 = (size_t)((std::max(a.y, b.y) - ly) / bh);
+            for (size_t k = b0; k <= b1 && k < nb; k++) buckets[k].push_back((uint32_t)i);
         }
     }
-    return false;
-}
+    P tr(P q) const { return swapped ? P{q.y, q.x} : q; }
+    int classify(P q0) const {
+        P q = tr(q0);
+        if (q.x < lx || q.x > hx || q.y < ly || q.y > hy) return 0;
+        const std::vector<uint32_t>& es = buckets[std::min<size_t>((size_t)((q.y - ly) / bh), buckets.size() - 1)];
+        int w = 0;
+        size_t n = p.size();
+        for (uint32_t i : es) {
+            P a = p[i], b = p[i + 1 == n ? 0 : i + 1];
+            int64_t lox = std::min(a.x, b.x), hix = std::max(a.x, b.x), loy = std::min(a.y, b.y), hiy = std::max(a.y, b.y);
+            if (q.y < loy || q.y > hiy || q.x > hix) continue;
+            if (q.x >= lox) {
+                i128 cr = eg::cross(a, b, q);
+                if (cr == 0) return 2;
+                if (a.y <= q.y) { if (b.y > q.y && cr > 0) w++; }
+                else if (b.y <= q.y && cr < 0) w--;
+            } else {
+                if (a.y <= q.y) { if (b.y > q.y) w++; }
+                else if (b.y <= q.y) w--;
+            }
+        }
+        return w != 0 ? 1 : 0;
+    }
+    bool near(P q0, int64_t guard) const {
+        P q = tr(q0);
+        if (q.x < lx - guard || q.x > hx + guard || q.y < ly - guard || q.y > hy + guard) return false;
+        size_t nb = buckets.size(), n = p.size();
+        size_t b0 = (size_t)(std::max<int64_t>(q.y - guard - ly, 0) / bh), b1 = std::min<size_t>((size_t)(std::max<int64_t>(q.y + guard - ly, 0) / bh), nb - 1);
+        for (size_t k = std::min(b0, nb - 1); k <= b1; k++)
+            for (uint32_t i : buckets[k]) {
+                P a = p[i], b = p[i + 1 == n ? 0 : i + 1];
+                if (q.x < std::min(a.x, b.x) - guard || q.x > std::max(a.x, b.x) + guard || q.y < std::min(a.y, b.y) - guard || q.y > std::max(a.y, b.y) + guard) continue;
+                if (eg::dist_seg(a, b, q) <= (long double)guard) return true;
+            }
+        return false;
+    }
+};
+struct Region {
+    std::vector<IPoly> v;
+    explicit Region(const std::vector<Poly>& g, int64_t scale = 1) {
+        for (auto& p : g) {
+            if (scale == 1) v.emplace_back(p);
+            else { Poly q = p; for (auto& t : q) { t.x *= scale; t.y *= scale; } v.emplace_back(q); }
+        }
+    }
+    int classify(P q) const {
+        int r = 0;
+        for (auto& p : v) {
+            int c = p.classify(q);
+            if (c == 2) return 2;
+            if (c == 1) r = 1;
+        }
+        return r;
+    }
+    bool on_boundary(P q) const { for (auto& p : v) if (p.classify(q) == 2) return true; return false; }
+    bool near(P q, int64_t guard) const { for (auto& p : v) if (p.near(q, guard)) return true; return false; }
+};
 inline i128 iabs(i128 v) { return v < 0 ? -v : v; }
 struct RegionReport { bool ok = true; std::string why; int64_t samples = 0, skipped = 0, piece_probes = 0; bool exact = true; };
 // expected: the original polygons on the grid; got: the loaded pieces on the grid.
@@ -512,6 +584,7 @@ inline RegionReport region_equal(const std::vector<Poly>& expected, const std::v
     // 1. exactness: is every piece vertex exactly on the boundary of an expected polygon?  If so no
     //    rounding happened and the identities below are checked without slack.
     i128 slack2 = 0;
+    const Region E1(expected), G1(got);
     // The exactness test below looks at *any* polygon of the other side; that is only sound when different
     // originals cannot touch each other's pieces, i.e. when their bounding boxes are more than 2 grid steps apart.
     bool separated = true;
@@ -533,17 +606,23 @@ inline RegionReport region_equal(const std::vector<Poly>& expected, const std::v
         P a = p[(i + n - 1) % n], b = p[(i + 1) % n];
         return (i128)2 * ((i128)llabs(b.x - a.x) + llabs(b.y - a.y)) + 2;
     };
+    // A piece vertex that is exactly on an original boundary was not moved by rounding.  One that is further
+    // than 1.5 grid steps from every original boundary is the crossing of two cut lines (or of a cut line
+    // with an earlier cut): every piece sharing it rounds it identically and edges along an axis-parallel cut
+    // stay on the rounded cut line, so it does not change the *sum* of the piece areas.  Only vertices near,
+    // but not on, an original boundary (cut x slanted original edge, rounded) contribute slack.
     for (auto& p : got)
         for (size_t i = 0; i < p.size(); i++) {
-            bool on = false;
-            for (auto& e : expected) if (classify(e, p[i]) == 2) { on = true; break; }
-            if (!on || !separated) { rep.exact = false; slack2 += vertex_slack(p, i); }
+            bool on = E1.on_boundary(p[i]);
+            if (on && separated) continue;
+            if (separated && !E1.near(p[i], 2)) continue;
+            rep.exact = false;
+            slack2 += vertex_slack(p, i);
         }
     // ... and an original vertex that no piece passes through was simplified away before rounding
     for (auto& e : expected)
         for (size_t i = 0; i < e.size(); i++) {
-            bool on = false;
-            for (auto& p : got) if (classify(p, e[i]) == 2) { on = true; break; }
+            bool on = G1.on_boundary(e[i]);
             if (!on || !separated) { rep.exact = false; slack2 += vertex_slack(e, i); }
         }
     // 2. area identity: pieces of a simple polygon are interior-disjoint, so areas add up
@@ -556,19 +635,18 @@ inline RegionReport region_equal(const std::vector<Poly>& expected, const std::v
         return rep;
     }
     // 3. membership at sample points (i + 1/3, j + 1/7) of the grid, in coordinates scaled by 21
-    auto scale21 = [](const std::vector<Poly>& g) { std::vector<Poly> r = g; for (auto& p : r) for (auto& v : p) { v.x *= 21; v.y *= 21; } return r; };
-    std::vector<Poly> e21 = scale21(expected), g21 = scale21(got);
+    const Region e21(expected, 21), g21(got, 21);
     const int64_t guard = rep.exact ? 0 : 32;  // 1.5 grid steps
     int64_t W = hix - lox + 2, H = hiy - loy + 2;
-    int64_t budget = std::max<int64_t>(200, std::min<int64_t>(4096, 20000000 / (int64_t)std::max<size_t>(nv, 1)));
+    int64_t budget = std::max<int64_t>(256, std::min<int64_t>(4096, 50000000 / (int64_t)(got.size() + expected.size() + 1)));
     int64_t nx = std::min<int64_t>(W, 64), ny = std::min<int64_t>(H, 64);
     while (nx * ny > budget) { if (nx >= ny) nx = (nx + 1) / 2; else ny = (ny + 1) / 2; }
     for (int64_t a = 0; a < nx && rep.ok; a++)
         for (int64_t b = 0; b < ny; b++) {
             int64_t ci = lox - 1 + (int64_t)(((i128)(2 * a + 1) * W) / (2 * nx)), cj = loy - 1 + (int64_t)(((i128)(2 * b + 1) * H) / (2 * ny));
             P q{21 * ci + 7, 21 * cj + 3};
-            int ce = classify(e21, q), cg = classify(g21, q);
-            if (ce == 2 || cg == 2 || (guard && (near_boundary(e21, q, guard) || near_boundary(g21, q, guard)))) { rep.skipped++; continue; }
+            int ce = e21.classify(q), cg = g21.classify(q);
+            if (ce == 2 || cg == 2 || (guard && (e21.near(q, guard) || g21.near(q, guard)))) { rep.skipped++; continue; }
             rep.samples++;
             if (ce != cg) {
                 rep.ok = false;
@@ -578,8 +656,9 @@ inline RegionReport region_equal(const std::vector<Poly>& expected, const std::v
         }
     if (!rep.ok) return rep;
     // 4. one interior probe per piece (centroid of a vertex triple that falls strictly inside the piece)
-    for (size_t k = 0; k < g21.size() && rep.ok; k++) {
-        const Poly& p = g21[k];
+    for (size_t k = 0; k < got.size() && rep.ok; k++) {
+        Poly p = got[k];
+        for (auto& t : p) { t.x *= 21; t.y *= 21; }
         size_t n = p.size();
         for (size_t i = 0; i + 2 < n + 2 && n >= 3; i++) {
             P a = p[i % n], b = p[(i + 1) % n], c = p[(i + 2) % n];
@@ -587,8 +666,8 @@ inline RegionReport region_equal(const std::vector<Poly>& expected, const std::v
             // vertices are multiples of 21, so the centroid is an integer point in these coordinates; nudge it off lattice lines
             P q{(a.x + b.x + c.x) / 3 + 1, (a.y + b.y + c.y) / 3 + 2};
             if (classify(p, q) != 1) continue;
-            if (guard && near_boundary(e21, q, guard)) { rep.skipped++; break; }
-            int ce = classify(e21, q);
+            if (guard && e21.near(q, guard)) { rep.skipped++; break; }
+            int ce = e21.classify(q);
             if (ce == 2) { rep.skipped++; break; }
             rep.piece_probes++;
             if (ce != 1) {
@@ -655,6 +734,22 @@ inline void compare_refs(const MCell& e, const MCell& g, const std::string& wher
     for (auto& d : best) out.push_back(d);
 }
 
+// fast path for the thousands of pieces of a fractured polygon: equal multisets of (tag, properties, canonical cycle)
+inline std::string poly_key(const MPoly& m) {
+    std::string k = fmt("%d/%d|", m.layer, m.type) + props_str(m.props) + "|";
+    Poly c = canon_cycle(m.pts);
+    k.append((const char*)c.data(), c.size() * sizeof(P));
+    return k;
+}
+inline bool same_polygon_multiset(const std::vector<MPoly>& a, const std::vector<MPoly>& b) {
+    if (a.size() != b.size()) return false;
+    std::vector<std::string> ka, kb;
+    for (auto& m : a) ka.push_back(poly_key(m));
+    for (auto& m : b) kb.push_back(poly_key(m));
+    std::sort(ka.begin(), ka.end());
+    std::sort(kb.begin(), kb.end());
+    return ka == kb;
+}
 // expected: model of the source (source == true) or of the first re-load; got: model of a re-load
 inline std::vector<Diff> compare(const MLib& e, const MLib& g, bool source, uint64_t max_points, const std::string& stage, CompareStats& st) {
     std::vector<Diff> out;
@@ -670,7 +765,7 @@ inline std::vector<Diff> compare(const MLib& e, const MLib& g, bool source, uint
         if (it == g.cells.end()) continue;
         std::string where = stage + ", cell '" + kv.first + "'";
         if (source) compare_polys(kv.second, it->second, where, max_points, out, st);
-        else match(kv.second.polys, it->second.polys, "polygon", where, out);
+        else if (!same_polygon_multiset(kv.second.polys, it->second.polys)) match(kv.second.polys, it->second.polys, "polygon", where, out);
         match(kv.second.paths, it->second.paths, "path", where, out);
         match(kv.second.labels, it->second.labels, "label", where, out);
         compare_refs(kv.second, it->second, where, out, st);
